@@ -25,6 +25,12 @@ def run(ctx):
     r4(ctx)
     r5(ctx)
     r6(ctx)
+    # the USR2 child carries the master's Pidfile object (same recorded pid): if it ever falls back into the inherited main loop
+    # its halt() unlinks the *running master's* pid file
+    ctx.rule("C17.R7", "K3", "(= C14.R1) the forked re-exec child never returns or raises into the old master's main loop (whose exit path unlinks the pid file the child inherited)")
+    from . import c14
+    from .common import MultiAlias
+    c14.r1(MultiAlias(ctx, {"C14.R1": "C17.R7"}))
 
 
 def r1(ctx):
